@@ -153,9 +153,19 @@ pub fn interpret(data: &Rcvar, node: &Ast, ctx: &mut Context<'_>) -> SearchResul
                 fn_args.push(interpret(data, arg, ctx)?);
             }
             // Reset the offset so that it points to the function being evaluated.
+            let outer_offset = ctx.offset;
             ctx.offset = offset;
             match ctx.runtime.get_function(name) {
-                Some(f) => f.evaluate(&fn_args, ctx),
+                Some(f) => {
+                    let result = f.evaluate(&fn_args, ctx);
+                    // A call that succeeded must not leave its position behind: a
+                    // function that evaluates expression references (sort_by, max_by,
+                    // ...) raises its own errors after the nested calls returned.
+                    if result.is_ok() {
+                        ctx.offset = outer_offset;
+                    }
+                    result
+                }
                 None => {
                     let reason =
                         ErrorReason::Runtime(RuntimeError::UnknownFunction(name.to_owned()));
